@@ -322,3 +322,46 @@ class FnRegenerateWhole(_Edit):
             yield "weight_is_the_sum_of_the_sites_MH_weights", same(w, Sym(total))
         xs0 = self.leaves(self.tr0.get_choices())
         yield "old_trace_not_mutated", xs0 is not None and all(z3.eq(u, v) for u, v in zip(xs0, self.x0)) and z3.eq(_lift(self.tr0.get_score()), self.score0)
+
+
+@contract("genjax.core:Fn.generate", ["C02", "C05"])
+class FnGenerateHistoryWhole(_Whole):
+    """history: the SAME @gen function object is used for two generate calls with different constraint subsets (and a
+    simulate in between); the second call's trace and weight are those of ITS constraints alone, and the first call's
+    trace is not touched by the later calls (no handler state survives a call)"""
+
+    cases = ["x_only_then_nested_only"]
+
+    def call(self, case):
+        self.program()
+        self.a, self.kw = value("a"), value("kw")
+        self.c1 = {"x": value("cx1"), "y": value("cy1"), "z": value("cz1")}
+        self.c2 = {"x": value("cx2"), "y": value("cy2"), "z": value("cz2")}
+        con1 = CONSTRAINTS["x_only"](self.c1)
+        con2 = CONSTRAINTS["nested_only"](self.c2)
+        tr1, w1 = self.real(self.f.generate, con1, self.a, kw=self.kw)
+        self.x1 = self.leaves(tr1.get_choices())
+        self.score1 = _lift(tr1.get_score())
+        self.real(self.f.simulate, self.a, kw=self.kw)
+        tr2, w2 = self.real(self.f.generate, con2, self.a, kw=self.kw)
+        return tr1, w1, tr2, w2
+
+    def ensures(self, case, path):
+        yield "does_not_raise", path.outcome == "return"
+        if path.outcome != "return":
+            core.handler_stack.clear()
+            return
+        tr1, w1, tr2, w2 = path.value
+        for nm, f in self.coherent(tr2, self.a, self.kw):
+            yield "second_call:" + nm, f
+        xs = self.leaves(tr2.get_choices())
+        if xs is None or self.x1 is None:
+            return
+        a1, a2, a3 = self.site_args(self.a, self.kw, xs[0], xs[1])
+        yield "second_call:x_and_y_are_fresh_draws(the first call's constraint is not remembered)", _is_app(xs[0], self.g1.DrawF) and _is_app(xs[1], self.g2.DrawF)
+        ok = _is_app(xs[2], self.g3.GenX) and z3.simplify(z3.And(xs[2].arg(0) == a3, xs[2].arg(1) == enc(self.c2["z"])))
+        yield "second_call:nested_site_is_generated_on_the_second_calls_constraint", ok
+        if _is_app(xs[2], self.g3.GenX):
+            yield "second_call:weight_is_the_nested_sites_weight_alone", same(w2, Sym(self.g3.GenW(a3, enc(self.c2["z"]), xs[2].arg(2))))
+        x1_now = self.leaves(tr1.get_choices())
+        yield "first_calls_trace_untouched_by_the_later_calls", x1_now is not None and all(z3.eq(u, v) for u, v in zip(x1_now, self.x1)) and z3.eq(_lift(tr1.get_score()), self.score1)
